@@ -55,7 +55,9 @@ Print Assumptions C18_probe_after_history_partial.
 
 (* the cycle memo of class Awaiting (known_cycles, found_cycles_stack): [wf] = found_cycles_stack is as long as
    awaiting_stack, known_cycles holds exactly the identities on the lists of found_cycles_stack, each once.
-   It is an invariant of every program, whatever its outcome ... *)
+   It is an invariant of every program, whatever its outcome: remember_cycle adds an identity only if it is not yet
+   known; a frame that ends is forgotten, or -- when it ends by DeferredCycle and has a parent -- its list is handed to
+   the parent's list (2b465cd), which moves identities between lists but neither duplicates nor loses any ... *)
 Theorem C18_cycle_memo_invariant : forall p s, wf (g s) -> wf (g (snd (eval p s))).
 Proof. exact eval_wf. Qed.
 Print Assumptions C18_cycle_memo_invariant.
